@@ -1080,11 +1080,22 @@ func (z *Decimal) SetFloat(x *big.Float) *Decimal {
 	fprec := f.MinPrec()
 	f.SetMantExp(f, int(fprec))
 	i, _ := f.Int(nil)
+	// Convert the integer mantissa exactly (a precision-0 receiver gets enough
+	// digits), and work with at least one more digit than both the mantissa
+	// and the result need: a value that fits z's precision is then stored
+	// exactly, whatever the rounding mode; rounding happens once, at the end.
+	prec := z.prec
+	z.prec = 0
 	z.SetInt(i)
+	if z.prec < prec {
+		z.prec = prec
+	}
+	if z.prec < MaxPrec {
+		z.prec++
+	}
 	exp2 -= int64(fprec)
 	if exp2 != 0 {
 		// multiply / divide by 2**exp with increased precision
-		z.prec++
 		t := new(Decimal).SetPrec(uint(z.prec))
 		if exp2 < 0 {
 			if exp2 < MinExp {
@@ -1097,8 +1108,8 @@ func (z *Decimal) SetFloat(x *big.Float) *Decimal {
 		} else {
 			z = z.Mul(z, t.pow2(uint64(exp2)))
 		}
-		z.prec--
 	}
+	z.prec = prec
 	z.round(0)
 	return z
 }
